@@ -4,3 +4,5 @@ use vstd::arithmetic::power2::*;
 use vstd::arithmetic::div_mod::*;
 use vstd::arithmetic::mul::*;
 use vstd::std_specs::ops::*;
+use vstd::std_specs::cmp::*;
+use core::cmp::Ordering;
